@@ -113,8 +113,8 @@ def lsan_blocks(txt):
     return out
 
 
-def crash_keys(prop, base, rc):
-    txt = _read(base + '.asan.*')
+def crash_keys(prop, base, rc, stderr_txt=''):
+    txt = _read(base + '.asan.*') + '\n' + stderr_txt
     keys = asan_keys(prop, txt)
     utxt = _read(base + '.ubsan.*') + txt
     keys += ubsan_keys(prop, utxt)
